@@ -836,7 +836,40 @@ def check_update_switch(ctx: Ctx) -> None:
     ctx.ob("15.9-update-switch", cname(rel, "_MergeStrategy", "__handle_update"), ok, "leaving the context must restore the switch as it was on entry (the contexts of nested objects nest): reset to a constant, the strategy of a nested object switches its parent back to merging, and with merge=False the properties after a nested object keep their old types as well", node=(after or [cm])[0], stmt="switch restored to its value on entry")
 
 
+def check_required_accessor(ctx: Ctx) -> None:
+    """15.10: the grammar writes its required names into the builder through ``builder.required`` right before it
+    exports the schema (``__sync_required_names``), and empties it after: the accessor must hand out the builder's OWN
+    set -- creating it when genson has not yet -- and never a temporary one while there is a strategy to hold it (F52:
+    the schema of a grammar built from types had no ``required``)."""
+    rel = "core/grammars/json_schema.py"
+    cls = ctx.index.cls(rel, "MutableMappingSchemaBuilder")
+    f = cls.properties.get("required") if hasattr(cls, "properties") and isinstance(cls.properties, dict) else None
+    f = f or cls.methods.get("required")
+    ctx.need(f is not None, "MutableMappingSchemaBuilder.required not found")
+    con = cname(rel, "MutableMappingSchemaBuilder", "required")
+    handlers = [h for t in ast.walk(f) if isinstance(t, ast.Try) for h in t.handlers]
+    in_handler = {id(x) for h in handlers for x in ast.walk(h)}
+    n = 0
+    for r in [s_ for s_ in stmts_of(f) if isinstance(s_, ast.Return) and s_.value is not None]:
+        v = r.value
+        while isinstance(v, ast.Call) and dotted(v.func) == "cast" and len(v.args) == 2:
+            v = v.args[1]
+        fresh = (isinstance(v, ast.Call) and dotted(v.func) in ("set", "frozenset") and not v.args) or (isinstance(v, ast.Set) and not v.elts)
+        n += 1
+        if fresh:
+            ctx.ob("15.10-required-accessor", con, id(r) in in_handler, "a temporary empty set is returned although the builder has a strategy that can hold the required names: what the grammar adds to it before exporting the schema is lost, and the published schema has no `required`", node=r, stmt="no temporary set while there is a strategy")
+        else:
+            alts = unfolded(f, r, get=lambda s_: s_.value) or [r.value]
+            own = all(any(isinstance(x, ast.Attribute) and x.attr == "_required" for x in ast.walk(a_)) for a_ in alts)
+            if not own and isinstance(v, ast.Name):
+                # a local that is (also) stored back into the strategy: `required = strategy._required = set()`
+                own = any(isinstance(s_, ast.Assign) and any(dotted(t) == v.id for t in s_.targets) and any(isinstance(t, ast.Attribute) and t.attr == "_required" for t in s_.targets) for s_ in stmts_of(f)) and any(isinstance(s_, ast.Assign) and any(dotted(t) == v.id for t in s_.targets) and any(isinstance(x, ast.Attribute) and x.attr == "_required" for x in ast.walk(s_.value)) for s_ in stmts_of(f))
+            ctx.ob("15.10-required-accessor", con, own, "the accessor must return the strategy's own set of required names", node=r, stmt="the builder's own set is returned")
+    ctx.need(n >= 2, "MutableMappingSchemaBuilder.required: returns not found")
+
+
 def run(ctx: Ctx) -> None:
+    check_required_accessor(ctx)
     check_update_switch(ctx)
     check_update_source_untouched(ctx)
     check_builder_required(ctx)
